@@ -440,7 +440,7 @@ def main(argv):
             if h.get("shared") and rname == "gen" and not os.environ.get("VERIF_NO_CACHE"):
                 # several properties are decided from one run of this harness: reuse
                 # the verdicts computed for the same tree, sources, seed and tier
-                key = hashlib.sha1(json.dumps([h["cmd"], tree_id(), dir_hash([os.path.join(HARNESS, "cmd", h["cmd"]), os.path.join(HARNESS, "internal")] + [os.path.join(COQ, d) for d in area_dirs]), rargs, os.path.realpath(REPO)]).encode()).hexdigest()[:20]
+                key = hashlib.sha1(json.dumps([h["cmd"], tree_id(), dir_hash([os.path.join(HARNESS, "cmd", h["cmd"]), os.path.join(HARNESS, "internal")] + [os.path.join(COQ, d) for d in h.get("coq_dirs", area_dirs)]), rargs, os.path.realpath(REPO)]).encode()).hexdigest()[:20]
                 cache_file = os.path.join(BUILD, "cache", key + ".json")
             if cache_file and os.path.exists(cache_file):
                 cached = json.load(open(cache_file))
